@@ -301,7 +301,8 @@ def threads(ctx):
         ctx.ob('R-C13e', 'died:join-before-%s' % what, bool(evs) and all(mp.get((e['_b'], e['_i'])) for e in evs), loc=evs[0]['loc'] if evs else f.loc,
                detail='pthr_join precedes the %s of the thread record' % what, fn=f.q)
     d = prog.fn('iv_thread_destructor')
-    eff = [e for e in d.events() if e['ev'] == 'store' or (e['ev'] == 'call' and e.get('callee') not in ('fprintf',))]
+    eff = [e for e in d.events() if (e['ev'] == 'store' and not (strip(e['lhs']).get('k') == 'var' and strip(e['lhs']).get('vk') == 'local'))
+           or (e['ev'] == 'call' and e.get('callee') not in ('fprintf',))]
     ok = len(eff) == 1 and is_call(eff[0], 'iv_event_post') and lm_arg(eff[0], 0) == ('iv_thread', 'dead')
     ctx.ob('R-C13e', 'destructor:only-posts', ok, loc=d.loc,
            detail='the thread-exit destructor\'s only effect on shared state is posting the dead event: %s' % [describe(e) for e in eff], fn=d.q)
